@@ -41,6 +41,7 @@ func extraSpecs() []*PropertySpec {
 		{ID: "C16", Rules: []string{"HANDLER-DEMOTE"}, Decided: "a (pre)candidate that accepts a message from the leader of its own or a later term becomes a follower before it answers: otherwise its next election timeout counts as a won prevote and it raises its term unasked"},
 		{ID: "C02", Rules: []string{"HANDLER-DEMOTE"}, Decided: "a candidate that recognises the leader of its term stops campaigning in that term"},
 		{ID: "C16", Rules: []string{"PREVOTE-TOKEN"}, Decided: "a campaign raises the term only on the strength of a prevote won for this attempt (a token set by a prevote quorum and spent by the increment): a candidate whose election timed out asks again"},
+		{ID: "C06", Rules: []string{"RECORD-OFFSET"}, Decided: "the persistent log agrees with the in-memory one after a conflict was repaired: Truncate cuts the file by the entry's Offset, so every entry the log keeps carries the position of its own record"},
 		{ID: "C10", Rules: []string{"SEND-LABEL"}, Decided: "a snapshot request is labelled with the metadata of the very file whose bytes it carries, not with the node's boundary"},
 		{ID: "C11", Rules: []string{"SEND-LABEL"}, Decided: "a snapshot request is labelled with the metadata of the very file whose bytes it carries"},
 		{ID: "C11", Rules: []string{"COMPACT-KEEP"}, Decided: "Compact keeps the boundary entry as placeholder plus the suffix, DiscardEntries leaves exactly the placeholder, LastIndex/LastTerm/NextIndex read the last element"},
